@@ -292,7 +292,8 @@ func (h *Range) Unmarshal(v base.HeaderValue) error {
 
 	specFound := false
 
-	for k, v := range kvs {
+	for _, k := range sortedKeys(kvs) {
+		v := kvs[k]
 		switch k {
 		case "smpte":
 			s := &RangeSMPTE{}
